@@ -20,7 +20,8 @@ RULE = ("value lists of 1-6 strings over a wide alphabet (case-only / punctuatio
         "null or a non-identifier character. distinct = hash(style, values, null, placement).")
 ASSUMPTIONS = [
     "a generator crash or a diagnostic for the enum is not judged here (C06/C07); the case is counted and skipped",
-    "quote, backslash and newline characters in values are used with the Literal style only (Enum-class style collides with C05 findings)",
+    "backslash and line-break characters in values are used with the Literal style only (the Enum-class template escapes double quotes only: C05 findings); quotes, braces, backticks and tabs are used with both styles",
+    "values whose member names coincide before sanitising and survive sanitising unchanged (a/A, value_1 next to the value that gets the positional name VALUE_1) are generated on purpose: the unchanged generator refuses them (known crash, C06), a silent merge is reported",
     "negatives are unequal to every listed value under JSON equality (1.0 is not a negative for member 1)",
     "enums with a null member are probed with negatives only while the finding covering them is stale",
 ]
@@ -35,9 +36,10 @@ def configure(live_ids, tier, opts):
 
 SPECIAL = ["a", "A", "a ", " a", "a-b", "a b", "a_b", "a.b", "a%", "1st", "1", "01", "", " ", "-", "_", "mro", "name", "value",
            "None", "none", "True", "class", "def", "é", "É", "ß", "SS", "中", "x" * 30, "a/b", "a:b", "#", "$x", "1.0", "-1",
-           "VALUE_0", "VALUE_1", "fi", "ﬁ", "İ", "i", "I"]
+           "VALUE_0", "VALUE_1", "fi", "ﬁ", "İ", "i", "I", 'say "hi"', '"', "it's", "'", '""', "{x}", "`"]
 SAFE_ALPHA = "abAB01 _-.%$#/:+*()[]<>|~!?,;=@&^éßİ中"
 FULL_ALPHA = SAFE_ALPHA + "'\"\\\n\t{}`"
+CLASS_ALPHA = SAFE_ALPHA + "'\"\t{}`"     # what the Enum-class template can carry (no backslash, no line break)
 
 
 def _key(v):
@@ -49,27 +51,69 @@ def _key(v):
     return re.sub(r"[^A-Z0-9]", "", s)
 
 
+def raw_key(v, i):
+    """The member name the generator derives before sanitising (reference copy of the documented rule)."""
+    return v.upper() if (isinstance(v, str) and v and v[0].isalpha()) else f"VALUE_{i}"
+
+
+def _drop_sanitised_collisions(vals):
+    seen, kept = set(), []
+    for v in vals:
+        k = _key(raw_key(v, len(kept)))
+        if k in seen or not k:
+            continue
+        seen.add(k)
+        kept.append(v)
+    return kept or ["a"]
+
+
+def name_flags(vals) -> dict:
+    import re
+
+    rks = [raw_key(v, i) for i, v in enumerate(vals)]
+    dup = {k for k in rks if rks.count(k) > 1}
+    # the generator's duplicate check compares the *unsanitised* name of a value with the *sanitised* names stored so far, so it
+    # only fires for names that sanitising leaves unchanged (plain ASCII letters, VALUE_<n>); every other coincidence, before or
+    # after sanitising, is merged silently (KF-C14-04)
+    if dup and all(re.fullmatch(r"[A-Z]+|VALUE_\d+", k) for k in dup):
+        return {"equal_raw_member_names": True}
+    sks = [_key(k) for k in rks]
+    if len(set(sks)) != len(sks):
+        return {"coinciding_member_names": True}
+    return {}
+
+
 @st.composite
 def enum_case(draw):
     literal = draw(st.booleans())
     base = draw(st.sampled_from(["str", "str", "int"]))
     if base == "str":
-        alpha = FULL_ALPHA if literal else SAFE_ALPHA
+        alpha = FULL_ALPHA if literal else CLASS_ALPHA
         vals = draw(st.lists(st.one_of(st.sampled_from(SPECIAL), st.text(alphabet=alpha, max_size=6)), min_size=1, max_size=6, unique=True))
         if not literal:
-            vals = [v for v in vals if not any(c in v for c in "'\"\\\n\t{}`")] or ["a"]
+            # the Enum-class template writes values between double quotes after escaping double quotes only: backslash and line
+            # breaks there are C05's findings; quotes, braces, backticks and tabs are fine
+            vals = [v for v in vals if not any(c in v for c in "\\\n\r")] or ["a"]
         coincide = draw(st.integers(0, 5)) == 0
         if not coincide or "KF-C14-04" in _live:
-            seen, kept = set(), []
-            for i, v in enumerate(vals):
-                k = _key(v) if (v and v[0].isalpha()) else f"VALUE_{i}"
-                if k in seen or (not k):
-                    continue
-                seen.add(k)
-                kept.append(v)
-            # positional VALUE_i keys can clash with a literal "VALUE_i" value: drop those too
-            kept = [v for v in kept if not _key(v).startswith("VALUE")] or ["a"]
-            vals = kept
+            # member names that coincide only *after* sanitising are silently merged (KF-C14-04): keep them apart
+            vals = _drop_sanitised_collisions(vals)
+        if coincide:
+            # two values whose member names coincide *before* sanitising ('a'/'A'; 'value_1' next to a value that gets the
+            # positional name VALUE_1): the generator refuses those (diagnostic / known crash) - it must never merge them silently
+            mode = draw(st.sampled_from(["positional", "case"]))
+            alpha = [v for v in vals if v and v[0].isalpha() and v.swapcase() != v]
+            if mode == "case" and alpha:
+                src = draw(st.sampled_from(alpha))
+                if src.swapcase() not in vals:
+                    vals = vals + [src.swapcase()]
+            else:
+                i = draw(st.integers(0, len(vals)))
+                filler = draw(st.sampled_from(["1st", "", "-x", "_a", "9", "%"]))
+                spelled = draw(st.sampled_from(["value_{}", "VALUE_{}", "Value_{}"])).format(i if i > 0 else 1)
+                vals = [v for v in vals if v not in (filler, spelled)]
+                i = min(i, len(vals)) if i > 0 else 1
+                vals = ([spelled] + vals)[:i] + [filler] + ([spelled] + vals)[i:]
     else:
         vals = draw(st.lists(st.one_of(st.integers(-5, 5), st.integers(-2**40, 2**40)), min_size=1, max_size=6, unique=True))
     return {"kind": "enum", "literal": literal, "base": base, "values": vals, "null": draw(st.integers(0, 3)) == 0,
@@ -252,10 +296,10 @@ def run(case, ctx):
     site0 = {"kind": case["kind"], "style": "literal" if case.get("literal") else "class"}
     if case["kind"] == "enum":
         site0.update({"base": case["base"], "null": bool(case["null"])})
-        keys = [(_key(v) if (isinstance(v, str) and v and v[0].isalpha()) else None) for v in case["values"]]
-        ks = [k for k in keys if k is not None]
-        if len(ks) != len(set(ks)) or any(_key(v).startswith("VALUE") for v in case["values"] if isinstance(v, str)):
-            site0["coinciding_member_names"] = True
+        if case["base"] == "str":
+            site0.update(name_flags(case["values"]))
+            if site0.get("equal_raw_member_names"):
+                ctx.label("equal_raw_member_names")
     else:
         site0.update({"ctype": type(case["value"]).__name__, "typed": bool(case.get("typed"))})
     try:
